@@ -2,8 +2,9 @@
    The format is stated as a relation between values and byte strings (Codec/Spec.v: every minimal, non-minimal, modern
    and legacy form, nested arbitrarily); C03_every_form_same_value is the decoder's soundness for it, for all values.
    Maps have their own theorem (C03_map_keeps_every_entry: nothing is lost when the keys are lawful and denote different
-   values; the recorded findings are exactly the keys outside that class).  Outside (correspondence only): compressed
-   terms, the textual float, LOCAL_EXT and ATOM_CACHE_REF. *)
+   values; the recorded findings are exactly the keys outside that class).  Compressed terms and the textual float
+   depend on zlib and on Rust's float parser, which enter as oracles (C03_compressed_form, C03_float_text_form).
+   Outside (correspondence only): LOCAL_EXT and ATOM_CACHE_REF, which are context dependent. *)
 From EDP Require Import Base.Bytes Term.Term Term.Value Gen.Tags Gen.Limits Gen.DecoderArms.
 From EDP Require Import Codec.Encode Codec.Decode Codec.DecodeFacts Codec.Norm Codec.RoundTrip Codec.RoundTrip2 Codec.Spec Codec.SpecFacts.
 
@@ -43,6 +44,26 @@ Section C03.
 
   Theorem C03_decode_every_form : forall v b, encodes v b -> exists t, decode cfg (tag_version :: b) = DOk t /\ denote t = v.
   Proof. exact (decode_sound cfg Harms). Qed.
+
+  (* COMPRESSED: 80, UncompressedSize, a zlib stream inflating to any encoding of the value (d_inflate is zlib: what the
+     stream inflates to and how many bytes of input it took): the term denotes the value, reading resumes after the stream *)
+  Theorem C03_compressed_form : forall v payload extra z rest usz f,
+    encodes v payload -> d_inflate cfg (z ++ rest) = Some (payload ++ extra, len z) ->
+    len (payload ++ extra) <= usz -> usz <= max_binary_size -> (length payload + 1 < f)%nat ->
+    exists t, parse cfg f (80 :: be 4 usz ++ z ++ rest) = POk t rest /\ denote t = v.
+  Proof. exact (compressed_sound cfg Harms). Qed.
+
+  Theorem C03_decode_compressed : forall v payload extra z usz,
+    encodes v payload -> d_inflate cfg z = Some (payload ++ extra, len z) ->
+    len (payload ++ extra) <= usz -> usz <= max_binary_size -> (length payload <= d_extra_fuel cfg)%nat ->
+    exists t, decode cfg (tag_version :: 80 :: be 4 usz ++ z) = DOk t /\ denote t = v.
+  Proof. exact (decode_compressed cfg Harms). Qed.
+
+  (* FLOAT_EXT: 31 bytes of text; the number a text denotes is the oracle d_float_text *)
+  Theorem C03_float_text_form : forall txt b rest f,
+    len txt = 31 -> utf8_valid txt = true -> d_float_text cfg (trim_nul txt) = Some b ->
+    parse cfg (S f) (99 :: txt ++ rest) = POk (TFloat b) rest /\ denote (TFloat b) = VFloat b.
+  Proof. exact (float_text_sound cfg Harms). Qed.
 
   Theorem C03_trailing_after_every_form : forall v b x r, encodes v b ->
     decode cfg (tag_version :: b ++ x :: r) = DTrailing (len (x :: r)).
@@ -197,6 +218,25 @@ Proof.
   cbn [distinct_values fst In]. repeat split; try exact I; try (cbn [tcl0 int_term]; repeat split; try lia; try exact I; try discriminate).
   all: try (intros kv' Hin; repeat destruct Hin as [<-|Hin]; try contradiction; cbn [fst denote]; discriminate).
   all: try (repeat constructor; lia). all: try (unfold Order.NumLaws.minimal; cbn; discriminate).
+Qed.
+
+(* the premises of the compressed and textual-float forms are satisfiable: a configuration whose zlib knows one stored
+   stream (CMF/FLG, one stored block holding `97 5`, Adler-32) and whose float parser knows one text *)
+From EDP Require Import Order.Cmp.
+Definition stream_5 : bytes := [120; 1; 1; 2; 0; 253; 255; 97; 5; 0; 206; 0; 103].
+Definition text_1_5 : bytes := [49; 46; 53; 48; 48; 48; 48; 48; 48; 48; 48; 48; 48; 48; 48; 48; 48; 48; 48; 48; 48; 48; 101; 43; 48; 48; 0; 0; 0; 0; 0].
+Definition cfg_ex : dcfg :=
+  {| d_arms := owned_arms; d_cache := []; d_refs := [];
+     d_inflate := fun z => if eq_bytes (firstn 13 z) stream_5 then Some ([97; 5], 13) else None;
+     d_float_text := fun t => if eq_bytes t (firstn 26 text_1_5) then Some 4609434218613702656 else None;
+     d_kcmp := cmp_owned; d_kinsert := map_insert; d_extra_fuel := 2 |}.
+Example C03_example_compressed :
+  encodes (VInt 5) [97; 5] /\ d_inflate cfg_ex (stream_5 ++ [106]) = Some ([97; 5] ++ [], len stream_5) /\
+  parse cfg_ex 4 (80 :: be 4 2 ++ stream_5 ++ [106]) = POk (TInt 5) [106] /\
+  decode cfg_ex (tag_version :: 80 :: be 4 2 ++ stream_5) = DOk (TInt 5) /\
+  parse cfg_ex 1 (99 :: text_1_5 ++ [106]) = POk (TFloat 4609434218613702656) [106].
+Proof.
+  split; [exact (E_small_int 5 ltac:(reflexivity))|]. repeat split; vm_compute; reflexivity.
 Qed.
 
 Check C03_trailing_reported.
